@@ -207,7 +207,36 @@ def parser_state(ip, F, pending, st=None):
     return st, root, inp, pv, fi_p
 
 
+def check_protocol(ctx, F, A, X):
+    """event protocol of the streaming parser by simulation (representation independent, see streamsim.py)"""
+    from .streamsim import StreamSim
+    from . import c04 as _c04
+    ctx.rule("R-C09-PROTOCOL", "streaming parser, simulated against the event protocol with ghost state (phase, outstanding entries): "
+                               "MessageStart, then for a list response announcing n values exactly n ListEntry events and one "
+                               "GetListResponseEnd, the checksum field and end marker parsed (and the checksum gate passed) before the next "
+                               "message or the end, errors end the iteration, nothing but None afterwards")
+    sim = StreamSim(F, A, X)
+    viols, stats = sim.run(crc_fact=_c04.crc_fact)
+    where = (sim.nb["span"]["file"], sim.nb["span"]["line"], sim.nb["def"])
+    ctx.count("R-C09-PROTOCOL", stats["transitions"])
+    ctx.oblig(not viols)
+    ctx.cov["streaming_protocol_simulation"] = {k: stats[k] for k in ("transitions", "trailers_checked", "rounds", "phases")}
+    if set(stats["phases"]) != {"0", "1", "2", "3", "4"}:
+        ctx.violation("BELOW-FLOOR", "R-C09-PROTOCOL", where, "the simulation reached only the phases %r" % (stats["phases"],))
+    for key, msg in viols:
+        ctx.violation("R-C09-PROTOCOL", key, where, msg)
+
+
 def check_countdown(ctx, F, A, X):
+    check_protocol(ctx, F, A, X)
+    try:
+        check_countdown_fields(ctx, F, A, X)
+    except AnchorMissing as e:
+        # the countdown is not the integer field the detailed rule is written for: the protocol simulation above is the check
+        ctx.cov["countdown_field_rule"] = "not applicable to this encoding (%s); decided by R-C09-PROTOCOL" % e
+
+
+def check_countdown_fields(ctx, F, A, X):
     ip = A.ip
     pn = [b for b in F.bodies.values() if b.get("name") == "parse_next" and (b.get("impl_self_ty") or {}).get("def") == PT]
     if len(pn) != 1:
